@@ -97,6 +97,34 @@ func cmdCheck(args []string) int {
 		fmt.Fprintln(os.Stderr, "missing -property")
 		return 2
 	}
+	if os.Getenv("GOVC_INNER") == "" {
+		// the check runs in a child process: if the engine itself dies (stack exhaustion, out
+		// of memory, a signal) the outcome must be a reported violation, never silence
+		self, err := os.Executable()
+		if err == nil {
+			cmd := exec.Command(self, os.Args[1:]...)
+			cmd.Env = append(os.Environ(), "GOVC_INNER=1")
+			cmd.Stdout, cmd.Stderr, cmd.Stdin = os.Stdout, os.Stderr, nil
+			err := cmd.Run()
+			code := 0
+			if err != nil {
+				code = -1
+				if ee, ok := err.(*exec.ExitError); ok {
+					code = ee.ExitCode()
+				}
+			}
+			if code == 0 || code == 1 {
+				return code
+			}
+			os.MkdirAll(filepath.Join(outRoot, "replays"), 0o755)
+			rp := filepath.Join(outRoot, "replays", o.prop+"-engine-crash.json")
+			b, _ := json.MarshalIndent(map[string]any{"property": o.prop, "obligation": "engine", "error": fmt.Sprintf("the verification engine terminated abnormally (exit code %d): nothing was decided for this tree", code)}, "", " ")
+			os.WriteFile(rp, b, 0o644)
+			fmt.Printf("ENGINE ERROR: the verification engine terminated abnormally (exit code %d)\n", code)
+			fmt.Printf("VIOLATION property=%s replay=%s no-failing-input-found\n", o.prop, rp)
+			return 1
+		}
+	}
 	return runCheck(o)
 }
 
